@@ -1,4 +1,5 @@
 import MidoModel.Tokenizer
+import MidoModel.Meta
 /- Text protocol helpers for the driver: parsing requests, printing canonical results. -/
 namespace Mido
 
@@ -60,6 +61,55 @@ def showExcept {α} (f : α → String) : Except Err α → String
 def POut.show : POut → String
   | .none => "none" | .msg m => "msg " ++ m.show | .count n => s!"count {n}" | .stop => "stop"
   | .iterId i => s!"iter {i}" | .msgs ms => "msgs " ++ showMsgs ms | .raised e => "err " ++ e.name
+
+/-! ### PyVal tokens: i<int> f<hundredths> s<cp,cp> n l<items> t<items> b<nats> -/
+def Item.show : Item → String
+  | .int n => toString n | .flt n => s!"f{n}" | .hobj => "h" | .uobj => "u"
+
+def commaList (xs : List String) : String := ",".intercalate xs
+
+def PyVal.show : PyVal → String
+  | .int n => s!"i{n}" | .flt h => s!"f{h}" | .str s => "s" ++ commaList (s.map toString)
+  | .none => "n" | .list xs => "l" ++ commaList (xs.map Item.show)
+  | .tuple xs => "t" ++ commaList (xs.map Item.show) | .bytes xs => "b" ++ commaList (xs.map toString)
+
+def splitComma (s : String) : List String := if s.isEmpty then [] else s.splitOn ","
+
+def parsePyVal (s : String) : Option PyVal :=
+  if s.isEmpty then none else
+  let body := (s.drop 1).toString
+  match s.front with
+  | 'i' => (parseInt? body).map .int
+  | 'f' => (parseInt? body).map .flt
+  | 's' => ((splitComma body).mapM parseNat?).map .str
+  | 'n' => some .none
+  | 'l' => ((splitComma body).mapM parseItem).map .list
+  | 't' => ((splitComma body).mapM parseItem).map .tuple
+  | 'b' => ((splitComma body).mapM parseNat?).map .bytes
+  | _ => none
+
+def parseKw (s : String) : Option (String × PyVal) :=
+  match s.splitOn "=" with
+  | [n, v] => (parsePyVal v).map (fun pv => (n, pv))
+  | _ => none
+
+def MetaMsg.show (m : MetaMsg) : String :=
+  " ".intercalate (m.ty.name :: m.vals.map PyVal.show)
+
+def MetaEvent.show : MetaEvent → String
+  | .known m => "known " ++ m.show
+  | .unknown tb d => s!"unknown {tb}" ++ (if d.isEmpty then "" else " " ++ showList d)
+
+def parseCharset (s : String) : Option Charset :=
+  match s with | "latin1" => some .latin1 | "ascii" => some .ascii | "utf8" => some .utf8 | _ => none
+
+def parseMetaMsg (ts : List String) : Option MetaMsg :=
+  match ts with
+  | [] => none
+  | ty :: vals => do
+    let t ← MetaType.ofName ty
+    let vs ← vals.mapM parsePyVal
+    pure ⟨t, vs⟩
 
 /-- run-length compression `x*n` of equal neighbours, joined by `;` -/
 def rle (xs : List String) : String :=
